@@ -10,7 +10,7 @@ func init() { checks["C17"] = checkC17 }
 // C17: the extracted wf_check runs on the implementation's real tapes.
 func checkC17(c *Ctx) {
 	r := c.Rng
-	c.Ev.Coverage.Rule = "the Coq-extracted executable wf_check (root pairs, mutual container pointers, proper nesting, string flag/offset/length in range, number payload words, no other tags; NOP runs pointing at their end) is run on the implementation's real Tape/Strings/Message for every accepted document of the G1/G7/deep/wide/NDJSON streams in both string modes, on both kernels (tapes are also compared word for word with the model's), and on every tape obtained by deserializing a serialized (possibly edited) tape. non-trivial = accepted document; distinct = by input bytes"
+	c.Ev.Coverage.Rule = "the Coq-extracted executable wf_check (root pairs, mutual container pointers, proper nesting, string flag/offset/length in range, number payload words, no other tags; NOP runs pointing at their end) is run on the implementation's real Tape/Strings/Message for every accepted document of the G1/G7/deep/wide/NDJSON streams in both string modes, on both kernels (tapes are also compared word for word with the model's), and on every tape obtained by deserializing a serialized (possibly edited) tape, also from a reused Serializer on 120 k (short, short+suffix) string pairs. non-trivial = accepted document; distinct = by input bytes"
 	flags := ChkModel | ChkKernels | ChkNoPanic
 	var batch []PCase
 	nwf := 0
@@ -70,6 +70,10 @@ func checkC17(c *Ctx) {
 	if deserWFProbe != nil {
 		deserWFProbe(c)
 	}
+	// string entries of a deserialized tape must lie inside its buffers also when the
+	// Serializer that wrote the bytes was used before (its string table and buffer are
+	// reused): the same stream as in C11, every string read back
+	c.c11StaleStrings(c.N(120000, 600000))
 }
 
 // deserWFProbe is installed by the serializer part of the harness.
